@@ -11,6 +11,16 @@ TEXT = {
                 "(the socket branch is exercised separately over loopback TCP). Task termination on a fatal receive error (select! arm) is checked with the handler properties.",
         "technique": "Lean 4 proof (prefix-stability lemmas + induction over read chunks; refinement to greedy decodeAll) + differential correspondence",
     },
+    "C12": {
+        "level": "Kernel-checked for every history of events the connection tasks can emit (choke, unchoke, interest changes, have, bitfield, piece done / "
+                 "cancelled, disconnect; repeated, out of order, interleaved over any number of peers) and EVERY value of the random piece choice: the manager "
+                 "never panics (T5), Have is absorbing (T1), a piece is Reserved(n) only with n >= 1 and an unchoked connected peer that was actually asked for "
+                 "it (T2), hence it stops being Reserved with the last such peer (T3), and requests name only advertised, lacking pieces (T4). Invariant proved "
+                 "preserved by every step and lifted by induction over the history. Tied to the real Session by command histories compared after every command.",
+        "note": KERNEL + "the connection task's piece_rx discipline is part of the model (rx field) and is tied to the real task by the handler-level checks; "
+                "assumed: live connections have distinct addresses; mpsc delivery is FIFO per task.",
+        "technique": "Lean 4 proof (state invariant by induction over event histories; accounting lemma for release/reserve) + differential correspondence on command histories",
+    },
     "C13": {
         "level": "Kernel-checked for all status vectors, peer sets, advertised sets and ALL shuffle outcomes (any permutation of the candidate list): a pick is "
                  "eligible and of minimal availability among eligible pieces (T1); none is picked iff nothing is eligible (T2); END_GAME_LIMIT = 10 from the "
